@@ -117,7 +117,8 @@ def rules(ctx, db):
 
     # ---------------- R2 polling
     if has_poll(db):
-        rm = [f for f in db.fns.values() if f.name == "compio_driver::sys::driver::poll::FdQueue::remove"]
+        # by role: the FdQueue method that filters its queues
+        rm = [f for f in db.fns.values() if f.self_adt == "compio_driver::sys::driver::poll::FdQueue" and calls(f, r"VecDeque::<.*>::retain$")]
         if not rm:
             ctx.missing("R2", "FdQueue::remove")
         for f in rm:
@@ -138,9 +139,11 @@ def rules(ctx, db):
                     okc = False
             ctx.ob("R2", "poll-remove-by-key-identity", ncl >= 2 and okc,
                    "only entries equal to the cancelled key are removed (retain(|k| k != key)); neighbours stay queued", f)
-        ro = [f for f in db.fns.values() if f.name == "compio_driver::sys::driver::poll::Driver::remove_one"]
+        rm_ids = "|".join(re.escape(x.name) for x in rm) or "poll::FdQueue::remove"
+        ro = [f for f in db.fns.values() if f.self_adt == "compio_driver::sys::driver::poll::Driver" and calls(f, "^(%s)$" % rm_ids)]
+        ctx.floor("R2", "polling-driver functions removing a key from a descriptor queue", len(ro), 1)
         for f in ro:
-            r1 = [bb for bb, _ in calls(f, r"poll::FdQueue::remove$")]
+            r1 = [bb for bb, _ in calls(f, "^(%s)$" % rm_ids)]
             r2 = [bb for bb, _ in calls(f, r"poll::Driver::renew$")]
             ev = [bb for bb, _ in calls(f, r"poll::FdQueue::event$")]
             ctx.ob("R2", "poll-remove-then-rearm", bool(r1) and bool(r2) and bool(ev) and f.cfg.dominates(r1[0], ev[0]) and f.cfg.dominates(ev[0], r2[0]),
